@@ -465,7 +465,9 @@ def run(ctx):
     for line, ri, (want, gnow) in zip(hlines, C.run_parallel(C.AVRODRIVE, hlines), hwant):
         distinct.add(line)
         pr = C.parse_sx(ri)[0] if ri.startswith("(") else ["crash"]
-        got = [x for x in pr[1:] if isinstance(x, list) and x[0] in ("sos", "sos-err", "sod", "freeze-err")] if pr[0] == "ok" else []
+        # (an intermediate `freeze` of the history may legitimately fail on an intermediate graph -- e.g. a cycle of unnamed nodes --:
+        #  those answers are not part of what is judged here; a failure of the final graph shows as sos-err)
+        got = [x for x in pr[1:] if isinstance(x, list) and x[0] in ("sos", "sos-err", "sod")] if pr[0] == "ok" else []
         if pr[0] != "ok" or len(got) != len(want):
             violations.append({"impl_case": line, "what": "a history on a SchemaMut followed by single-object use did not complete: %s" % ri[:200]})
             continue
